@@ -85,12 +85,15 @@ package api
 //@   ensures r0 == nil ==> handledByAuth || responded == 401 || responded == 403 || responded == 404 || responded == 405 || responded == 500
 
 // the only writer of the API key store: every stored token is non-nil
+// and no key survives an update unless the update itself imported it again (revoking works)
+//@ spec keysFresh() bool = forall k string :: has(apiKeys, k) ==> fresh(apiKeys[k])
 //@ func updateAPIKeys
 //@   assume keysOK()
 //@   modifies *
 //@   ensures keysOK()
+//@   ensures keysFresh()
 //@   loop 0 invariant keysOK()
-//@   loop 1 invariant keysOK() && rangeindex >= -1 && rangeindex <= 1<<48
+//@   loop 1 invariant keysOK() && keysFresh() && rangeindex >= -1 && rangeindex <= 1<<48
 
 //@ func NewLoggingResponseWriter
 //@   ensures r0 != nil && fresh(r0) && r0.Request == r && r0.Status == 0 && r0.ResponseWriter == w
